@@ -222,7 +222,6 @@ Proof.
     + destruct H as [Hl0 Hr0]. rewrite hget_hset_other by (unfold l; lia). rewrite H2.
       intros k wl Hin. apply Hr0 in Hin. lia.
     + intros l0 H. destruct H as [Hl0 Hr0]. rewrite hget_hset_other by (unfold l; lia). rewrite H2. reflexivity.
-    + right. unfold l. lia.
 Qed.
 
 (* ------------------------------------------------------------------ the metadata setter *)
@@ -614,7 +613,8 @@ Lemma partner_inv s w u1 u2 e1 :
     /\ get_ent w u2 (ents s) = Some p /\ file s1 = file s /\ (next s <= next s1)%N
     /\ (forall w0 u0, (w0 <> w \/ u0 <> u1) -> get_ent w0 u0 (ents s1) = get_ent w0 u0 (ents s))
     /\ (forall l0, ptr_ok s l0 -> read s1 l0 = read s l0 /\ ptr_ok s1 l0)
-    /\ (forall l0, ptr_ok s l0 -> hget l0 (heap s1) = hget l0 (heap s)).
+    /\ (forall l0, ptr_ok s l0 -> hget l0 (heap s1) = hget l0 (heap s))
+    /\ (forall l0, md e1 = Some l0 -> exists x, get_ent w u1 (ents s1) = Some x /\ md x = Some l0).
 Proof.
   intros Hinv G1. destruct (inv_sees _ _ _ _ Hinv) as (e1' & e2 & fd & H1 & H2 & H3 & H4 & H5 & H6 & H7 & H8 & H9 & H10 & H11 & H12).
   assert (e1' = e1) by congruence. subst e1'.
@@ -655,12 +655,15 @@ Proof.
   exists e2. destruct (cache e1') eqn:Ec.
   - exists s1. split; [reflexivity|]. split; [exact U2|]. split; [exact W2|]. split.
     { assert (Es : s1 = set_ents s1 (ents s1)) by (destruct s1; reflexivity). rewrite Es. apply Hinv1; [rewrite <- W1, <- U1; exact A1 | exact G2']. }
-    split; [exact H2|]. split; [exact A5|]. split; [exact A6|]. split; [exact Hfr|]. split; [exact A7 | exact A8].
+    split; [exact H2|]. split; [exact A5|]. split; [exact A6|]. split; [exact Hfr|]. split; [exact A7|]. split; [exact A8|].
+    intros l0 El0. exists e1'. split; [rewrite <- W1, <- U1; exact A1|]. unfold em_md in Em. rewrite El0 in Em. inversion Em; subst. reflexivity.
   - eexists. split; [reflexivity|]. split; [exact U2|]. split; [exact W2|]. split.
     { apply Hinv1.
       + rewrite <- W1, <- U1. apply (get_put_same (with_cache e1' (Some (uid e2)))).
       + rewrite (get_put_other (with_cache e1' (Some (uid e2)))); [exact G2'|]. right. simpl. rewrite U1. exact H3. }
-    split; [exact H2|]. split; [exact A5|]. split; [exact A6|]. split; [|split; [exact A7 | exact A8]].
+    split; [exact H2|]. split; [exact A5|]. split; [exact A6|]. split; [|split; [exact A7 | split; [exact A8|]]].
+    2: { intros l0 El0. exists (with_cache e1' (Some (uid e2))). split; [simpl; rewrite <- W1, <- U1; apply (get_put_same (with_cache e1' (Some (uid e2))))|].
+         unfold em_md in Em. rewrite El0 in Em. inversion Em; subst. reflexivity. }
     intros w0 u0 Hne0. simpl. rewrite (get_put_other (with_cache e1' (Some (uid e2)))).
     + apply Hfr. exact Hne0.
     + simpl. rewrite W1, U1. destruct Hne0 as [H|H]; [left; intros E; apply H; symmetry; exact E | right; intros E; apply H; symmetry; exact E].
@@ -987,3 +990,320 @@ Definition link_keys_hold_uids (fd : fdict) : Prop :=
 
 Lemma in_expand h k v d : In (k, v) d -> In (k, expand_val h v) (expand h d).
 Proof. intros H. unfold expand. apply (in_map (fun kv => (fst kv, expand_val h (snd kv))) d (k, v) H). Qed.
+
+(* ------------------------------------------------------------------ copying one side of a linked pair *)
+Lemma key_differs s w u tw uc e : get_ent w u (ents s) = Some e -> get_ent tw uc (ents s) = None -> w <> tw \/ u <> uc.
+Proof.
+  intros G N0. destruct (Bool.bool_dec w tw) as [Ew|Ew]; [|left; exact Ew].
+  destruct (N.eq_dec u uc) as [Eu|Eu]; [|right; exact Eu]. subst. congruence.
+Qed.
+
+Lemma sym_key {A B} (a a' : A) (b b' : B) : (a <> a' \/ b <> b') -> (a' <> a \/ b' <> b).
+Proof. intros [H|H]; [left | right]; intros E; apply H; symmetry; exact E. Qed.
+
+Theorem copy_links_copies s w ua ub ea tw mask s' uc :
+  wf s -> inv s w ua ub -> get_ent w ua (ents s) = Some ea -> is_large (fam ea) = false ->
+  (forall fd, sees s ea = Some fd -> link_keys_hold_uids fd) ->
+  em_copy s ea tw mask = Ok (s', uc) ->
+  exists uc2,
+    inv s' tw uc uc2 /\ inv s' w ua ub /\ wf s'
+    /\ get_ent tw uc (ents s) = None /\ get_ent tw uc2 (ents s) = None /\ uc <> uc2.
+Proof.
+  intros Hwf Hinv Ga Hlarge Hkeys Hcopy.
+  destruct (inv_sees _ _ _ _ Hinv) as (e1 & eb & fd & H1 & H2 & H3 & H4 & H5 & H6 & H7 & H8 & H9 & H10 & H11 & H12).
+  assert (e1 = ea) by congruence. subst e1.
+  destruct (get_ent_some _ _ _ _ H1) as [W1 U1]. destruct (get_ent_some _ _ _ _ H2) as [W2 U2].
+  pose proof Hwf as [Wf1 Wf2].
+  assert (Hpa : forall l0, md ea = Some l0 -> ptr_ok s l0) by exact H8.
+  assert (Hpb : forall l0, md eb = Some l0 -> ptr_ok s l0).
+  { destruct Hinv as (x1 & x2 & fd' & I1 & I2 & I3 & I4 & I5 & I6 & I7 & I8 & I9 & I10 & I11 & I12 & I13 & I14).
+    assert (x2 = eb) by congruence. subst x2. intros l0 E. unfold live_ok in I12. rewrite E in I12. apply I12. }
+  unfold em_copy in Hcopy. destruct (masked_nv ea mask) as [n|]; [|discriminate].
+  destruct (spawn s ea tw n) as [c s2] eqn:Esp.
+  destruct (spawn_spec s ea tw n c s2 Hwf H5 ltac:(rewrite U1; apply (Wf1 _ _ _ H1)) Esp)
+    as (lc & S1 & S2 & S3 & S4 & S5 & S6 & S7 & S8 & S9 & S10 & S11).
+  pose proof (key_differs _ _ _ _ _ _ H1 S5) as Ka. pose proof (key_differs _ _ _ _ _ _ H2 S5) as Kb.
+  (* the source pair after the spawn *)
+  assert (Hinv2 : inv s2 w ua ub).
+  { apply (inv_frame s s2 w ua ub Hinv); try (apply S8; assumption). intros l0 Hl0 _ _. apply S9. exact Hl0. }
+  assert (Hwf2 : wf s2).
+  { apply (wf_preserve s s2 [(tw, uid c)] Hwf S6).
+    - intros w0 u0 Hn. apply S8. destruct (Bool.bool_dec w0 tw) as [E1|E1]; [|left; exact E1].
+      destruct (N.eq_dec u0 (uid c)) as [E2|E2]; [|right; exact E2]. subst. exfalso. apply Hn. left. reflexivity.
+    - intros w0 u0 [E|[]]. injection E as Ew0 Eu0; subst w0 u0. destruct S1 as (G & _). rewrite S2 in G. split; [exists c; exact G | exact S10]. }
+  assert (Ga2 : get_ent w ua (ents s2) = Some ea) by (rewrite (proj1 (S8 w ua Ka)); exact H1).
+  assert (Hr2 : refresh s2 ea = ea) by (apply refresh_get; rewrite W1, U1; exact Ga2). rewrite Hr2 in Hcopy.
+  destruct (em_md s2 ea) as [l s3] eqn:Em.
+  destruct (em_md_inv s2 w ua ub ea l s3 Hinv2 Ga2 Em) as (M1 & M2 & M3 & M4 & M5 & M6 & M7 & M8 & (fd3 & M9 & M9') & M10).
+  assert (Hlc2 : ptr_ok s2 lc) by (destruct S1 as (_ & _ & _ & _ & P & _); exact P).
+  assert (Gc3 : get_ent (wsp c) (uid c) (ents s3) = get_ent (wsp c) (uid c) (ents s2)).
+  { apply M3. rewrite S2. apply sym_key. exact Ka. }
+  assert (A3 : alone s3 c lc) by (apply (alone_frame s2 s3 c lc S1 Gc3 (M7 lc Hlc2) M5)).
+  assert (Hwf3 : wf s3).
+  { apply (wf_preserve s2 s3 [(w, ua)] Hwf2 M5).
+    - intros w0 u0 Hn. split; [apply M3 | rewrite M4; reflexivity].
+      destruct (Bool.bool_dec w0 w) as [E1|E1]; [|left; exact E1]. destruct (N.eq_dec u0 ua) as [E2|E2]; [|right; exact E2].
+      subst. exfalso. apply Hn. left. reflexivity.
+    - intros w0 u0 [E|[]]. injection E as Ew0 Eu0; subst w0 u0. split; [eexists; exact M2|].
+      apply N.lt_le_trans with (next s2); [apply (proj1 Hwf2 _ _ _ Ga2) | exact M5]. }
+  (* l is not the dict of the copy *)
+  assert (Hllc : l <> lc).
+  { destruct M10 as [E|E].
+    - apply Hpa in E. destruct E as [E _]. lia.
+    - destruct Hlc2 as [Hx _]. lia. }
+  (* replay *)
+  assert (Hsees2 : sees s2 ea = sees s ea).
+  { unfold sees. destruct (md ea) as [l0|] eqn:Emd.
+    - f_equal. apply S9. apply Hpa. reflexivity.
+    - rewrite W1, U1. apply S8. exact Ka. }
+  assert (Hd : forall k v, In (k, v) (hget l (heap s3)) -> scalar v -> k <> KA /\ k <> KB /\ val_ok s3 v).
+  { intros k v Hin Hsc. assert (Hk := Hkeys fd3 ltac:(rewrite <- Hsees2; exact M9')).
+    assert (Hin' : In (k, expand_val (wheap s3) v) fd3) by (rewrite <- M9; apply in_expand; exact Hin).
+    split; [|split].
+    - intros E. destruct (Hk _ _ Hin' (or_introl E)) as [u Eu]. apply expand_val_FU in Eu. subst v. exact Hsc.
+    - intros E. destruct (Hk _ _ Hin' (or_intror E)) as [u Eu]. apply expand_val_FU in Eu. subst v. exact Hsc.
+    - destruct v; try exact I. simpl. destruct M8 as [_ Hr]. apply (Hr k l0 Hin). }
+  rewrite <- S2 in Hcopy.
+  destruct (replay_alone (hget l (heap s3)) s3 c lc A3 Hd) as (R1 & R2 & R3 & R4 & R5 & R6).
+  set (s4 := replay s3 (wsp c) (uid c) (hget l (heap s3))) in *.
+  rewrite S2 in Hcopy.
+  assert (Hloc4 : forall l0, l0 <> lc -> ptr_ok s3 l0 -> read s4 l0 = read s3 l0 /\ ptr_ok s4 l0).
+  { intros l0 Hne [Pl Pr]. split; [unfold read; rewrite R3, (R5 l0 Hne); reflexivity|].
+    split; [rewrite R2; exact Pl | rewrite R2, (R5 l0 Hne); exact Pr]. }
+  assert (Hinv4 : inv s4 w ua ub).
+  { apply (inv_frame s3 s4 w ua ub M1); try (rewrite R4; reflexivity); try (apply R6; rewrite S2; assumption).
+    intros l0 Hl0 _ (e & [He|He] & Emd).
+    - rewrite M2 in He. inversion He; subst e. simpl in Emd. inversion Emd; subst l0. apply (Hloc4 l Hllc Hl0).
+    - assert (He' : get_ent w ub (ents s3) = Some eb).
+      { rewrite M3 by (right; intros E; apply H3; symmetry; exact E). rewrite (proj1 (S8 w ub Kb)). exact H2. }
+      rewrite He' in He. inversion He; subst e. apply Hloc4; [|exact Hl0].
+      apply Hpb in Emd. destruct Emd as [E _]. lia. }
+  assert (Hwf4 : wf s4).
+  { apply (wf_preserve s3 s4 [(wsp c, uid c)] Hwf3 ltac:(rewrite R2; lia)).
+    - intros w0 u0 Hn. split; [rewrite R4; reflexivity|]. apply R6.
+      destruct (Bool.bool_dec w0 (wsp c)) as [E1|E1]; [|left; exact E1]. destruct (N.eq_dec u0 (uid c)) as [E2|E2]; [|right; exact E2].
+      subst. exfalso. apply Hn. left. reflexivity.
+    - intros w0 u0 [E|[]]. injection E as Ew0 Eu0; subst w0 u0. destruct R1 as (G & _). split; [exists c; exact G|].
+      rewrite R2. apply N.lt_le_trans with (next s2); [exact S10 | exact M5]. }
+  (* the partner of the source *)
+  assert (Ga4 : get_ent w ua (ents s4) = Some (with_md ea (Some l))) by (rewrite R4; exact M2).
+  assert (Hr4 : refresh s4 ea = with_md ea (Some l)) by (apply refresh_get; rewrite W1, U1; exact Ga4). rewrite Hr4 in Hcopy.
+  destruct (partner_inv s4 w ua ub (with_md ea (Some l)) Hinv4 Ga4) as (p & s5 & P1 & P2 & P3 & P4 & P5 & P6 & P7 & P8 & P9 & P10 & P11).
+  rewrite P1 in Hcopy. change (fam (with_md ea (Some l))) with (fam ea) in Hcopy. rewrite Hlarge in Hcopy.
+  destruct (masked_nv p mask) as [n2|]; [|discriminate].
+  assert (Hlc4 : ptr_ok s4 lc) by (destruct R1 as (_ & _ & _ & _ & P & _); exact P).
+  assert (Gc5 : get_ent (wsp c) (uid c) (ents s5) = get_ent (wsp c) (uid c) (ents s4)).
+  { apply P8. rewrite S2. apply sym_key. exact Ka. }
+  assert (A5 : alone s5 c lc) by (apply (alone_frame s4 s5 c lc R1 Gc5 (P10 lc Hlc4) P7)).
+  assert (Hwf5 : wf s5).
+  { apply (wf_preserve s4 s5 [(w, ua)] Hwf4 P7).
+    - intros w0 u0 Hn. split; [apply P8 | rewrite P6; reflexivity].
+      destruct (Bool.bool_dec w0 w) as [E1|E1]; [|left; exact E1]. destruct (N.eq_dec u0 ua) as [E2|E2]; [|right; exact E2].
+      subst. exfalso. apply Hn. left. reflexivity.
+    - intros w0 u0 [E|[]]. injection E as Ew0 Eu0; subst w0 u0.
+      destruct P4 as (x1 & _ & _ & X1 & _). split; [exists x1; exact X1|].
+      apply N.lt_le_trans with (next s4); [apply (proj1 Hwf4 _ _ _ Ga4) | exact P7]. }
+  (* the second spawn *)
+  assert (Gp4 : get_ent w ub (ents s4) = Some eb).
+  { rewrite R4. rewrite M3 by (right; intros E; apply H3; symmetry; exact E). rewrite (proj1 (S8 w ub Kb)). exact H2. }
+  assert (p = eb) by congruence. subst p.
+  destruct (spawn s5 eb tw n2) as [c2 s7] eqn:Esp2.
+  assert (Hub5 : (uid eb < next s5)%N).
+  { rewrite U2. apply N.lt_le_trans with (next s); [apply (Wf1 _ _ _ H2)|]. rewrite R2 in P7. lia. }
+  destruct (spawn_spec s5 eb tw n2 c2 s7 Hwf5 H6 Hub5 Esp2)
+    as (lc2 & T1 & T2 & T3 & T4 & T5 & T6 & T7 & T8 & T9 & T10 & T11).
+  injection Hcopy as Es Eu; subst s' uc.
+  assert (Gc5' : get_ent tw (uid c) (ents s5) = Some c).
+  { destruct A5 as (G & _). rewrite S2 in G. exact G. }
+  assert (Hcc2 : uid c <> uid c2) by (intros E; rewrite E in Gc5'; congruence).
+  assert (Kc2 : forall w0 u0 e0, get_ent w0 u0 (ents s5) = Some e0 -> w0 <> tw \/ u0 <> uid c2).
+  { intros w0 u0 e0 G. apply (key_differs s5 w0 u0 tw (uid c2) e0 G T5). }
+  assert (Gc7 : get_ent (wsp c) (uid c) (ents s7) = get_ent (wsp c) (uid c) (ents s5)).
+  { apply T8. rewrite S2. right. exact Hcc2. }
+  assert (Hlc5 : ptr_ok s5 lc) by (destruct A5 as (_ & _ & _ & _ & P & _); exact P).
+  assert (A7 : alone s7 c lc) by (apply (alone_frame s5 s7 c lc A5 Gc7 (T11 lc Hlc5) T6)).
+  assert (Ga5 : exists ea5, get_ent w ua (ents s5) = Some ea5) by (destruct P4 as (x1 & _ & _ & X1 & _); exists x1; exact X1).
+  destruct Ga5 as [ea5 Ga5].
+  assert (Gb5 : get_ent w ub (ents s5) = Some eb) by (rewrite P8; [exact Gp4 | right; intros E; apply H3; symmetry; exact E]).
+  assert (Hinv7 : inv s7 w ua ub).
+  { apply (inv_frame s5 s7 w ua ub P4); try (apply T8; apply (Kc2 _ _ _ Ga5)); try (apply T8; apply (Kc2 _ _ _ Gb5)).
+    intros l0 Hl0 _ _. apply T9. exact Hl0. }
+  assert (Hr7 : refresh s7 c = c) by (apply refresh_get; destruct A7 as (G & _); exact G).
+  rewrite Hr7.
+  destruct (alone_sees s7 c lc A7) as (Q1 & Q2 & Q3).
+  destruct T1 as (G2c & M2c & C2c & F2c & P2c & K12c & K22c).
+  destruct A7 as (G7c & M7c & C7c & F7c & P7c & K17c & K27c).
+  destruct (em_link_inv s7 tw (uid c) (uid c2) c c2 (read s7 lc)) as (L1 & L2 & L3 & L4); try assumption.
+  - rewrite <- S2. exact G7c.
+  - rewrite <- T2. exact G2c.
+  - rewrite T3, S3. exact H4.
+  - left. exact C2c.
+  - exists (uid c2). split; [exact L1|].
+    (* the source pair is untouched by the link of the copies *)
+    assert (Ga7 : get_ent w ua (ents s7) = Some ea5) by (rewrite (proj1 (T8 w ua (Kc2 _ _ _ Ga5))); exact Ga5).
+    assert (Gb7 : get_ent w ub (ents s7) = Some eb) by (rewrite (proj1 (T8 w ub (Kc2 _ _ _ Gb5))); exact Gb5).
+    assert (Ka7 : w <> tw \/ (ua <> uid c /\ ua <> uid c2)).
+    { destruct (Bool.bool_dec w tw) as [Ew|Ew]; [|left; exact Ew]. right. split.
+      - intros E. rewrite Ew, E in H1. rewrite S5 in H1. discriminate.
+      - intros E. rewrite Ew, E in Ga5. rewrite T5 in Ga5. discriminate. }
+    assert (Kb7 : w <> tw \/ (ub <> uid c /\ ub <> uid c2)).
+    { destruct (Bool.bool_dec w tw) as [Ew|Ew]; [|left; exact Ew]. right. split.
+      - intros E. rewrite Ew, E in H2. rewrite S5 in H2. discriminate.
+      - intros E. rewrite Ew, E in Gb5. rewrite T5 in Gb5. discriminate. }
+    split; [|split; [|split; [exact S5 | split; [|exact Hcc2]]]].
+    + apply (inv_frame s7 _ w ua ub Hinv7); try (apply L3; assumption).
+      intros l0 Hl0 _ (e & He & Emd). apply (L4 l0 Hl0). intros l1 El1. rewrite M7c in El1. inversion El1; subst l1.
+      (* the dicts of the source pair are older than the dict of the copy, or were loaded after it *)
+      destruct He as [He|He].
+      * rewrite Ga7 in He. inversion He; subst e. clear He.
+        destruct P4 as (x1 & x2 & fdx & X1 & X2 & _ & _ & _ & _ & _ & _ & _ & _ & X11 & _).
+        assert (x1 = ea5) by congruence. subst x1.
+        (* ea5 is the record after the partner getter: its dict is l *)
+        intros E. subst l0.
+        assert (Hmd5 : md ea5 = Some l).
+        { destruct (P11 l eq_refl) as (x & Gx & Mx). rewrite Ga5 in Gx. inversion Gx; subst x. exact Mx. }
+        rewrite Hmd5 in Emd. inversion Emd as [Ell]. apply Hllc. exact Ell.
+      * rewrite Gb7 in He. inversion He; subst e. apply Hpb in Emd. destruct Emd as [E _]. intros E2. subst l0. lia.
+    + apply (wf_preserve s7 _ [(tw, uid c); (tw, uid c2)]).
+      * apply (wf_preserve s5 s7 [(tw, uid c2)] Hwf5 T6).
+        -- intros w0 u0 Hn. apply T8. destruct (Bool.bool_dec w0 tw) as [E1|E1]; [|left; exact E1].
+           destruct (N.eq_dec u0 (uid c2)) as [E2|E2]; [|right; exact E2]. subst. exfalso. apply Hn. left. reflexivity.
+        -- intros w0 u0 [E|[]]. injection E as Ew0 Eu0; subst w0 u0. split; [exists c2; rewrite <- T2; exact G2c | exact T10].
+      * exact L2.
+      * intros w0 u0 Hn. apply L3. destruct (Bool.bool_dec w0 tw) as [E1|E1]; [|left; exact E1]. right. subst w0. split.
+        -- intros E. subst u0. apply Hn. left. reflexivity.
+        -- intros E. subst u0. apply Hn. right. left. reflexivity.
+      * intros w0 u0 Hk. destruct L1 as (x1 & x2 & _ & X1 & X2 & _).
+        destruct Hk as [E|[E|[]]]; injection E as Ew0 Eu0; subst w0 u0.
+        -- split; [exists x1; exact X1|]. apply N.lt_le_trans with (next s7); [|exact L2].
+           apply N.lt_le_trans with (next s5); [|exact T6]. apply (proj1 Hwf5 _ _ _ Gc5').
+        -- split; [exists x2; exact X2|]. apply N.lt_le_trans with (next s7); [exact T10 | exact L2].
+    + (* the complement copy is new in the target workspace *)
+      destruct (get_ent tw (uid c2) (ents s)) as [x|] eqn:Gx; [|reflexivity]. exfalso.
+      assert (Hx5 : exists y, get_ent tw (uid c2) (ents s5) = Some y).
+      { assert (Kx : forall w0, w0 <> tw \/ uid c2 <> uid c) by (intros w0; right; intros E; apply Hcc2; symmetry; exact E).
+        destruct (Bool.bool_dec tw w) as [Ew|Ew].
+        - rewrite Ew. rewrite Ew in Gx. destruct (N.eq_dec (uid c2) ua) as [Eu|Eu]; [rewrite Eu; exists ea5; exact Ga5|].
+          exists x. rewrite P8 by (right; exact Eu). rewrite R4. rewrite M3 by (right; exact Eu). rewrite (proj1 (S8 _ _ (Kx w))). exact Gx.
+        - exists x. rewrite P8 by (left; exact Ew). rewrite R4. rewrite M3 by (left; exact Ew). rewrite (proj1 (S8 _ _ (Kx tw))). exact Gx. }
+      destruct Hx5 as [y Hy]. congruence.
+Qed.
+
+(* ------------------------------------------------------------------ copies of copies *)
+Theorem copy_of_copy s w ua ub ea tw mask s1 uc c1 tw2 mask2 s2 ucc :
+  wf s -> inv s w ua ub -> get_ent w ua (ents s) = Some ea -> is_large (fam ea) = false ->
+  (forall fd, sees s ea = Some fd -> link_keys_hold_uids fd) ->
+  em_copy s ea tw mask = Ok (s1, uc) ->
+  get_ent tw uc (ents s1) = Some c1 -> is_large (fam c1) = false ->
+  (forall fd, sees s1 c1 = Some fd -> link_keys_hold_uids fd) ->
+  em_copy s1 c1 tw2 mask2 = Ok (s2, ucc) ->
+  exists uc2 ucc2,
+    inv s2 tw2 ucc ucc2 /\ inv s2 tw uc uc2
+    /\ get_ent tw2 ucc (ents s1) = None /\ get_ent tw2 ucc2 (ents s1) = None /\ ucc <> ucc2
+    /\ (exists x y, get_ent tw uc (ents s1) = Some x /\ get_ent tw uc2 (ents s1) = Some y)
+    /\ (exists x y, get_ent w ua (ents s1) = Some x /\ get_ent w ub (ents s1) = Some y).
+Proof.
+  intros Hwf Hinv Ga Hl Hk Hc1 Gc1 Hl1 Hk1 Hc2.
+  destruct (copy_links_copies s w ua ub ea tw mask s1 uc Hwf Hinv Ga Hl Hk Hc1) as (uc2 & I1 & I2 & W1 & N1 & N2 & D1).
+  destruct (copy_links_copies s1 tw uc uc2 c1 tw2 mask2 s2 ucc W1 I1 Gc1 Hl1 Hk1 Hc2) as (ucc2 & J1 & J2 & W2 & M1 & M2 & D2).
+  exists uc2, ucc2. split; [exact J1|]. split; [exact J2|]. split; [exact M1|]. split; [exact M2|]. split; [exact D2|].
+  split.
+  - destruct I1 as (x & y & _ & X & Y & _). exists x, y. split; assumption.
+  - destruct I2 as (x & y & _ & X & Y & _). exists x, y. split; assumption.
+Qed.
+
+(* ------------------------------------------------------------------ edits of one pair and the other pairs *)
+(* scalar edits, links and re-opens applied to one pair leave another pair consistent when the two pairs hold distinct dict cells *)
+Definition cells_apart (s : st) (w : bool) (ua ub : N) (tw : bool) (uc uc2 : N) : Prop :=
+  forall x y l, (get_ent w ua (ents s) = Some x \/ get_ent w ub (ents s) = Some x) ->
+                (get_ent tw uc (ents s) = Some y \/ get_ent tw uc2 (ents s) = Some y) ->
+                md x = Some l -> md y = Some l -> False.
+
+Definition keys_apart (w : bool) (ua ub : N) (tw : bool) (uc uc2 : N) : Prop :=
+  w <> tw \/ (ua <> uc /\ ua <> uc2 /\ ub <> uc /\ ub <> uc2).
+
+Lemma edit_other_pair s w ua ub tw uc uc2 ec k z :
+  inv s w ua ub -> inv s tw uc uc2 -> keys_apart w ua ub tw uc uc2 -> cells_apart s w ua ub tw uc uc2 ->
+  get_ent tw uc (ents s) = Some ec -> k <> KA -> k <> KB ->
+  inv (em_edit s ec k (VZ z)) w ua ub.
+Proof.
+  intros Hsrc Hcp Hkeys Hcells Gc Hka Hkb.
+  destruct (inv_sees _ _ _ _ Hcp) as (e1 & e2 & fd & H1 & H2 & H3 & H4 & H5 & H6 & H7 & H8 & H9 & H10 & H11 & H12).
+  assert (e1 = ec) by congruence. subst e1.
+  assert (Hk : forall r, k <> key_of r) by (intros [|]; assumption).
+  destruct (em_edit_inv s tw uc uc2 ec e2 fd k (VZ z) H1 H2 H3 H4 H5 H6 H7 H8 H9 (Hk _)) as (B1 & B2 & B3 & B4 & B5); try assumption.
+  - right. split; [apply Hk | exact H10].
+  - exact I.
+  - assert (Ka : tw <> w \/ (ua <> uc /\ ua <> uc2)) by (destruct Hkeys as [E|(A & B & _)]; [left; intros X; apply E; symmetry; exact X | right; split; assumption]).
+    assert (Kb : tw <> w \/ (ub <> uc /\ ub <> uc2)) by (destruct Hkeys as [E|(_ & _ & A & B)]; [left; intros X; apply E; symmetry; exact X | right; split; assumption]).
+    assert (Ka' : w <> tw \/ (ua <> uc /\ ua <> uc2)) by (destruct Ka as [E|E]; [left; intros X; apply E; symmetry; exact X | right; exact E]).
+    assert (Kb' : w <> tw \/ (ub <> uc /\ ub <> uc2)) by (destruct Kb as [E|E]; [left; intros X; apply E; symmetry; exact X | right; exact E]).
+    apply (inv_frame s _ w ua ub Hsrc); try (apply B4; assumption).
+    intros l0 Hl0 _ (x & Hx & Emd). apply (B5 l0 Hl0). intros l1 El1 E. subst l1.
+    apply (Hcells x ec l0 Hx (or_introl Gc) Emd El1).
+Qed.
+
+(* ------------------------------------------------------------------ isolation of a copy from its source: refuted *)
+Definition op_on (o : op) : option nat :=
+  match o with OEdit a _ _ | OWave a _ | OUnit a _ => Some a | _ => None end.
+
+(* an edit applied to an entity created by a copy never changes what a pre-existing entity reads *)
+Definition copy_isolated_full : Prop :=
+  forall (h : list op) (s : st) (i : nat) (tw : bool) (mask : option (list bool)) (s1 : st) (o : op) (k : nat) (s2 : st)
+         (j : nat) (e e' : ent),
+    run s0 h = Ok s -> step s (OCopy i tw mask) = Ok s1 ->
+    op_on o = Some k -> length (ents s) <= k -> step s1 o = Ok s2 ->
+    j < length (ents s) -> at_pos s1 j = Some e -> at_pos s2 j = Some e' ->
+    sees s2 e' = sees s1 e.
+
+Definition h_tem : list op :=
+  [OCreate false FTEM RA false 4 []; OCreate false FTEM RB false 4 []; OLink 0 1].
+
+Theorem copy_isolated_refuted : ~ copy_isolated_full.
+Proof.
+  intros H.
+  assert (Hc : exists s s1 s2 e e',
+            run s0 h_tem = Ok s /\ step s (OCopy 0 false None) = Ok s1 /\ step s1 (OWave 2 7) = Ok s2
+            /\ length (ents s) = 2 /\ at_pos s1 0 = Some e /\ at_pos s2 0 = Some e' /\ sees s2 e' <> sees s1 e).
+  { eexists _, _, _, _, _. split; [vm_compute; reflexivity|]. split; [vm_compute; reflexivity|]. split; [vm_compute; reflexivity|].
+    split; [reflexivity|]. split; [vm_compute; reflexivity|]. split; [vm_compute; reflexivity|]. vm_compute. discriminate. }
+  destruct Hc as (s & s1 & s2 & e & e' & H1 & H2 & H3 & H4 & H5 & H6 & H7). apply H7.
+  apply (H h_tem s 0 false None s1 (OWave 2 7) 2 s2 0 e e' H1 H2 eq_refl); try assumption; rewrite H4; lia.
+Qed.
+
+(* what happens on the witness: the source receivers read the waveform written through the copy, their stored metadata keeps the old one *)
+Example tem_alias_witness :
+  exists s s1 s2 e',
+    run s0 h_tem = Ok s /\ step s (OCopy 0 false None) = Ok s1 /\ step s1 (OWave 2 7) = Ok s2
+    /\ at_pos s2 0 = Some e'
+    /\ option_map (dget KW) (sees s2 e') = Some (Some (FD [(0, 0%Z); (1, 7%Z)]))
+    /\ option_map (dget KW) (fget false (uid e') (file s2)) = Some (Some (FD [(0, 0%Z)])).
+Proof.
+  eexists _, _, _, _. split; [vm_compute; reflexivity|]. split; [vm_compute; reflexivity|]. split; [vm_compute; reflexivity|].
+  split; [vm_compute; reflexivity|]. split; vm_compute; reflexivity.
+Qed.
+
+(* non-vacuity of the invariant: linking two freshly created receivers/transmitters establishes it *)
+Example inv_nonvacuous :
+  exists s, run s0 h_tem = Ok s /\ inv s false 1%N 2%N /\ wf s.
+Proof.
+  eexists. split; [vm_compute; reflexivity|]. split.
+  - eexists _, _, _. split; [vm_compute; reflexivity|]. split; [vm_compute; reflexivity|]. split; [discriminate|].
+    split; [reflexivity|]. split; [reflexivity|]. split; [reflexivity|].
+    split; [vm_compute; reflexivity|]. split; [vm_compute; reflexivity|].
+    split; [vm_compute; reflexivity|]. split; [vm_compute; reflexivity|].
+    split; [|split; [|split; [right; reflexivity | left; reflexivity]]].
+    + unfold live_ok. simpl md. split; [vm_compute; reflexivity|]. split; [reflexivity|].
+      intros k wl Hin. vm_compute in Hin. repeat (destruct Hin as [Hin|Hin]; [inversion Hin; subst; reflexivity|]). contradiction.
+    + unfold live_ok. simpl md. split; [vm_compute; reflexivity|]. split; [reflexivity|].
+      intros k wl Hin. vm_compute in Hin. repeat (destruct Hin as [Hin|Hin]; [inversion Hin; subst; reflexivity|]). contradiction.
+  - split.
+    + intros w u e G. vm_compute in G. destruct w.
+      * discriminate.
+      * destruct (N.eqb u 1) eqn:E1; [apply N.eqb_eq in E1; subst; reflexivity|].
+        destruct (N.eqb u 2) eqn:E2; [apply N.eqb_eq in E2; subst; reflexivity|].
+        exfalso. revert G. unfold same_ent. simpl. intros G.
+        destruct u as [|p]; [discriminate|]. destruct p as [p|p|]; try destruct p; simpl in *; try discriminate.
+    + intros w u G. destruct w; [reflexivity|]. vm_compute. vm_compute in G.
+      destruct u as [|p]; [reflexivity|]. destruct p as [p|p|]; try destruct p; simpl in *; try reflexivity; try discriminate.
+Qed.
